@@ -15,6 +15,7 @@ must equal the loaded entries.
 """
 
 import atexit
+import collections
 import importlib.util
 import io
 import itertools
@@ -63,6 +64,12 @@ ASSUMPTIONS = [
 ]
 
 MODES = ('off', 'ok', 'raise')
+SAMPLE_DOCS = {
+    ((ref.SB, ref.BL, ref.DVE, ref.GB, ref.GE), True),      # valid signed, dash-escaped entry
+    ((ref.VE, ref.SB, ref.BL, ref.GB, ref.GE), True),       # entry before the signed block
+    ((ref.SB, ref.BL, ref.GB, ref.GE, ref.VE), False),      # entry after the signed block
+    ((ref.SB, ref.VE, ref.BL, ref.GB, ref.GE), True),       # entry line in armor-header position (arguable)
+}
 STATE_NAMES = {0: 'DATA', 1: 'SIGNED_PREAMBLE', 2: 'SIGNED_DATA', 3: 'SIGNATURE', 4: 'POST_SIGNED_DATA'}
 DUMMY_SIG = object()
 
@@ -192,7 +199,7 @@ def judge_doc(A, seq, final_nl, observations):
     for mode, o in observations.items():
         if any(satisfies(v, mode, o) for v in verdicts):
             continue
-        accepted = o[0] is None
+        accepted = o[0] is None or (mode == 'raise' and o[0] == 'OpenPGPVerificationFailure' and bool(o[4]))
         pick = v0
         for v in verdicts:
             if (v.kind != 'INV') == accepted:
@@ -261,12 +268,17 @@ def run_doc(A, seq, final_nl, stats, loc, seed):
         fsm.add((st, c, nxt))
         pairs.add((pos0[k], st))
     loc['refpos'].update(zip(pos0, seq))
-    if len(stats.samples) < 2 and refkind == 'VS' and len(seq) >= 5:
-        stats.sample({'part': 'A', 'document': text, 'final_newline': final_nl, 'reference': 'valid signed',
-                      'expected_entries': repr(v0.entries), 'text_for_verify_file': v0.text})
-    elif len(stats.samples) < 3 and refkind == 'INV' and len(seq) >= 5 and 'outside_entry' in v0.defects:
-        stats.sample({'part': 'A', 'document': text, 'reference': 'invalid: ' + ','.join(sorted(set(v0.defects))),
-                      'allowed': sorted(v0.allowed), 'observed': {m: obs[m][0] for m in MODES}})
+    if refkind == 'VS' and v0.entries:
+        loc['vs_entries'] += 1
+        if ref.DVE in seq:
+            loc['vs_dash'] += 1
+    if (seq, final_nl) in SAMPLE_DOCS:
+        stats.sample({'part': 'A', 'classes': [ref.CLASS_NAMES[c] for c in seq], 'document': text,
+                      'reference': {'VS': 'valid signed', 'VU': 'valid unsigned', 'DC': 'DONT_CARE: ' + (dc or ''),
+                                    'INV': 'invalid (%s) -> %s' % (','.join(sorted(set(v0.defects))), '/'.join(sorted(v0.allowed)))}[refkind],
+                      'expected_entries': repr(v0.entries), 'text_for_verify_file': v0.text,
+                      'observed': {m: ('ret' if obs[m][0] is None else obs[m][0]) + ' entries=%r verify_calls=%d' % (obs[m][1], len(obs[m][4]))
+                                   for m in MODES}})
     for mode, sig, msg in viols:
         stats.violation(sig, {'part': 'A', 'seed': seed, 'classes': list(seq), 'final_nl': final_nl,
                               'mode': mode, 'text': text}, msg)
@@ -285,8 +297,8 @@ def a_docs(prefix, L):
 def a_run(spec, tier, seed, stats):
     A = ref.alphabet(seed)
     L = tier_len(tier)
-    loc = {'docs': 0, 'nontrivial': 0, 'defects': __import__('collections').Counter(), 'fsm': set(),
-           'pairs': set(), 'refpos': set(), 'trace_missing': 0}
+    loc = {'docs': 0, 'nontrivial': 0, 'defects': collections.Counter(), 'fsm': set(),
+           'pairs': set(), 'refpos': set(), 'trace_missing': 0, 'vs_entries': 0, 'vs_dash': 0}
     if spec[1] == 'short':
         docs = [((), False)]
         for c in range(ref.NCLASS):
@@ -314,6 +326,8 @@ def a_run(spec, tier, seed, stats):
     c['A_documents'] += loc['docs']
     c['A_documents_nontrivial'] += loc['nontrivial']
     c['A_trace_missing'] += loc['trace_missing']
+    c['A_valid_signed_with_entries'] += loc['vs_entries']
+    c['A_valid_signed_with_dash_escaped_entry'] += loc['vs_dash']
     for d, n in loc['defects'].items():
         c['A_defect:' + d] += n
     for st, cl, nxt in loc['fsm']:
@@ -486,6 +500,8 @@ def b_check(text, env, meta):
         return 'load_ok/gpg_ok/equal', []
     sig = dict(sigbase, check='entries_differ_from_authenticated_cleartext',
                authenticated='not a Manifest' if st == 'reject' else 'other entries')
+    if sig['not_dash_escaped_header']:
+        sig.pop('kind', None)       # one cause, whatever harmless mutation rides along
     why = f'reference parser rejects it: {val}' if st == 'reject' else f'its entries are {val!r}'
     return 'load_ok/gpg_ok/DIFFER', [(sig, 'entries_differ_from_authenticated_cleartext: load(verify_openpgp=True) '
                                            f'succeeded with entries {ents!r} but the cleartext gpg authenticated is '
@@ -585,9 +601,8 @@ def b_run(spec, tier, seed, stats):
     name, base_text = bases[bi]
     seen = set()
     for label, text in b_mutants(bi, kind, sub, A, bases):
-        if text in seen:
-            stats.counters['B_duplicate_in_shard'] += 1
-            continue
+        if text in seen:       # evaluated anyway: the menu, not the text, defines the space
+            stats.counters['B_duplicate_text_in_shard'] += 1
         seen.add(text)
         meta = {'base': name, 'kind': kind}
         out, viols = b_check(text, env, meta)
@@ -610,7 +625,7 @@ def b_run(spec, tier, seed, stats):
             stats.dontcare['B: ' + out.split('dontcare:', 1)[1]] += 1
         else:
             stats.compared += 1
-        if label != 'identity' and out == 'load_ok/gpg_ok/equal' and len(stats.samples) < 1 and kind in ('esc', 'hdr', 'crlf'):
+        if (bi, label) in ((3, 'unesc:4'), (0, 'hdr:Hash@1')):
             stats.sample({'part': 'B', 'base': name, 'mutation': label, 'outcome': out, 'text': text})
         for sig, msg in viols:
             stats.violation(sig, {'part': 'B', 'text': text, 'label': label, 'meta': meta}, msg)
@@ -632,8 +647,9 @@ def shards(tier, seed):
     out.append(('A', 'short', 0))
     if B['bases'] is None:          # setup() not run (should not happen under the runner)
         raise RuntimeError('C04 setup() did not run')
-    out.extend(b_shards(tier, B['bases']))
-    return out
+    bs = b_shards(tier, B['bases'])
+    first = [x for x in bs if x[1:3] in ((3, 'unesc'), (0, 'hdr'))]
+    return first + out + [x for x in bs if x not in first]
 
 
 def run_shard(spec, tier, seed, scratch):
@@ -678,6 +694,9 @@ def finish(total, tier):
     for mode in MODES:
         if not total.outcomes.get(f'A:VS/{mode}/' + ('exc:OpenPGPVerificationFailure' if mode == 'raise' else 'ret')):
             errs.append(f'vacuity: no valid signed document was generated and accepted in mode {mode}')
+    for k in ('A_valid_signed_with_entries', 'A_valid_signed_with_dash_escaped_entry'):
+        if not c.get(k):
+            errs.append(f'vacuity: counter {k} is zero')
     if not total.outcomes.get('A:VU/ok/ret'):
         errs.append('vacuity: no valid unsigned document accepted')
     for d in ref.DEFECTS:
@@ -710,7 +729,7 @@ def extra_evidence(total, tier):
     table = {}
     for s, cl, nxt in sorted(trans, key=repr):
         nm = STATE_NAMES.get(s, str(s))
-        tgt = nxt if nxt == 'raise' else ('end' if nxt == 'None' else STATE_NAMES.get(int(nxt), nxt))
+        tgt = STATE_NAMES.get(int(nxt), nxt) if nxt.isdigit() else nxt
         table.setdefault(nm, {}).setdefault(ref.CLASS_NAMES[cl], []).append(tgt)
     slim = {k: v for k, v in c.items() if not k.startswith(('A_fsm:', 'A_pair:', 'A_refpos:'))}
     nb = len(total.states)
